@@ -56,12 +56,12 @@
              | VEnv2 ws bws name oarg text    ws \begin bws {name} [oarg] text \end{name}   (stage (e7):
                                    verbatim environments, with the optional argument of the signature
                                    written, or absent)
+             | Vba2 ws od cd text  (argument position, stage (e7)) a verbatim argument [ws od text cd]
 
     NOT covered:
     a paragraph break directly after a control word /
     comment, paragraph-break whitespace in a context without the [\n\n] specials,
-    comments before an argument, a delimited argument directly nested in the body of another one,
-    the verbatim ARGUMENT kind ([v] arguments of custom signatures).
+    comments before an argument, a delimited argument directly nested in the body of another one.
 
     Full statement (kept for reference, not proved):
       forall ctx d, ctx_wf ctx = true -> ok_doc ctx d = true ->
@@ -510,3 +510,23 @@ Example C02_verbatim_nonvacuous :
   (ok_doc2 default_ctx bad2 = false /\
    parse_top (unparse2 bad2) false default_ctx (walker_state default_ctx) <> doc_result2 default_ctx bad2).
 Proof. vm_compute. repeat split; discriminate. Qed.
+
+(** the verbatim ARGUMENT kind (custom signatures): under a context whose macro [\v]
+    takes a verbatim argument with automatic delimiters and one delimited by [< >]:
+    [\v {a{\}b}<x<%>>y  \v|$|\n <>] — nested braces are counted, active characters are
+    text, whitespace in front of the argument is skipped *)
+Example C02_verbatim_argument_nonvacuous :
+  let cxv := {| cx_macros := [([118], {| sp_args := APStd [{| a_spec := [118]; a_kind := AKVerb None; a_delta := ADNone |};
+                                                         {| a_spec := [118]; a_kind := AKVerb (Some ([60],[62])); a_delta := ADNone |}];
+                                        sp_body_math := false |})];
+                cx_envs := []; cx_specials := []; cx_unk_macro := None; cx_unk_env := None |} in
+  let d := {| d_items2 := [Mac2 [] [118] [32] [Vba2 [] 123 125 [97;123;92;125;98]; Vba2 [] 60 62 [120;60;37;62]];
+                           Text2 [] [121];
+                           Mac2 [32;32] [118] [] [Vba2 [] 124 124 [36]; Vba2 [10;32] 60 62 []]];
+              d_trail2 := [] |} in
+  let bad := {| d_items2 := [Mac2 [] [118] [] [Vba2 [] 123 125 [123]; Vba2 [] 60 62 []]]; d_trail2 := [] |} in
+  (ok_doc2 cxv d = true /\ parse_top (unparse2 d) false cxv (walker_state cxv) = doc_result2 cxv d /\
+   length (unparse2 d) = 28%nat) /\
+  (* an unbalanced opening delimiter in the text: the parser's scan ends later *)
+  (ok_doc2 cxv bad = false /\ parse_top (unparse2 bad) false cxv (walker_state cxv) <> doc_result2 cxv bad).
+Proof. vm_compute. repeat split. discriminate. Qed.
